@@ -221,6 +221,8 @@ func (c *WSClient) connect() error {
 			return
 		}
 
+		verifAt("listen.start", c)
+
 		// Starts the async read. If there is a read error, it is set so that
 		// it is returned the next time Send is called. That should be
 		// sufficient for most cases where the client cares only about sending.
@@ -229,6 +231,8 @@ func (c *WSClient) connect() error {
 		if err := c.session.Connection.Listen(); err != nil {
 			c.setErr(err)
 		}
+
+		verifAt("listen.done", c)
 	}()
 
 	return nil
@@ -306,6 +310,8 @@ func (c *WSClient) Send(e protocol.ChunkEncoder) error {
 	}
 
 	bytesData := rawMessageData.Bytes()
+
+	verifAt("send.checked", c)
 	// Write function does not accurately return the number of bytes written
 	// so it would be ineffective to compare
 	_, err = c.session.Connection.Write(bytesData)
@@ -327,6 +333,8 @@ func (c *WSClient) SendRaw(m []byte) error {
 	if session == nil || session.Connection.Closed() {
 		return errors.New("no active session")
 	}
+
+	verifAt("sendraw.checked", c)
 
 	_, err := session.Connection.Write(m)
 
